@@ -111,6 +111,42 @@ theorem C17_history_durable (h : List Ev) (hd : Handle) (ho : (run World.init h)
   · exact ⟨(C17_close_durable _ hwf hd ho tail hq m hm).1, (C17_close_durable _ hwf hd ho tail hq m hm).2.2⟩
   · exact ⟨(C17_exit_durable _ hwf hd ho tail hq m hm).1, (C17_exit_durable _ hwf hd ho tail hq m hm).2.2⟩
 
+/-- Once `flush`, `close` or a `with`-exit has returned, then through *every* continuation that writes
+nothing — write-backs, further flushes and closes, SIGKILLs, reopening read-only or read-write, in any order
+and number — the disk holds exactly the state at that call, and whenever the file is open its view is that
+state. (This is what the harness observes: kill, reopen `'r'`, walk, close, reopen `'a'`, walk.) -/
+theorem C17_every_later_view (w : World) (hwf : WF w) (hd : Handle) (ho : w.handle = some hd)
+    (fin : Ev) (hfin : fin = .flush ∨ fin = .close ∨ fin = .exit)
+    (es : List Ev) (hq : ∀ e ∈ es, quiet e = true) :
+    (run (step w fin).1 es).disk = some hd.cache ∧
+    ∀ hd', (run (step w fin).1 es).handle = some hd' → hd'.cache = hd.cache := by
+  have h0 : Settled hd.cache (step w fin).1 := by
+    rcases hfin with rfl | rfl | rfl
+    · exact runBody_syncs Gen.fileFlushBody ho hwf C17_flush_shape.1
+    · exact runBody_syncs Gen.fileCloseBody ho hwf C17_close_shape.1
+    · exact runBody_syncs Gen.fileExitBody ho hwf C17_exit_shape.1
+  have h1 := run_settled es hq h0
+  exact ⟨h1.disk, h1.cache⟩
+
+/-- flushing twice is flushing once -/
+theorem C17_flush_idempotent (w : World) (hwf : WF w) (hd : Handle) (ho : w.handle = some hd) :
+    (step (step w .flush).1 .flush).1.disk = (step w .flush).1.disk ∧
+    view (step (step w .flush).1 .flush).1 = view (step w .flush).1 := by
+  have h := C17_every_later_view w hwf hd ho .flush (Or.inl rfl)
+  have h0 := h [] (by simp)
+  have h1 := h [.flush] (by simp [quiet])
+  have hv0 := (C17_flush_durable w hwf hd ho [] (by simp) .readOnly (by simp)).2.1
+  refine ⟨by simpa [run] using h1.1.trans h0.1.symm, ?_⟩
+  rw [hv0]
+  -- the second flush keeps the handle
+  obtain ⟨_, _, hc, _⟩ := C17_flush_shape
+  have hk0 := (runBody_keeps Gen.fileFlushBody ho hc).1
+  have hk1 := (runBody_keeps Gen.fileFlushBody (w := (runBody w Gen.fileFlushBody).1) hk0 hc).1
+  show view (runBody (runBody w Gen.fileFlushBody).1 Gen.fileFlushBody).1 = some hd.cache
+  unfold view
+  rw [hk1]
+  rfl
+
 /-! ### nothing flushed is ever lost, over any number of writer processes -/
 
 /-- Any number of writer processes one after the other, each opening the file for writing (`'a'`, or `'w'`
